@@ -104,3 +104,10 @@ Theorem C05_translated_sync_refines_try_sync_full : forall exec (f : nat) (st : 
     end.
 Proof. exact GoLiteSyncRefine.translated_sync_refines_try_sync. Qed.
 Print Assumptions C05_translated_sync_refines_try_sync_full.
+
+(* THE WHOLE LOOP.  [code_try_sync] runs the translated iteration again and again, reading the code's own result (go
+   round again / nil / an error); for every executor, every fuel and every loop state it is Syncer.try_sync. *)
+Theorem C05_translated_sync_loop_is_try_sync_full : forall exec fuel st,
+  GoLiteSyncRefine.code_try_sync exec fuel st = try_sync exec fuel st.
+Proof. exact GoLiteSyncRefine.code_try_sync_is_try_sync. Qed.
+Print Assumptions C05_translated_sync_loop_is_try_sync_full.
